@@ -187,7 +187,8 @@ def accepted (L : Lits α) (P : Params α) (s : State α) (o : PassOracle α) (h
     if last then .inr { status := .success, h := hnew, x := x, cnt := cnt }
     else
       -- "Step accepted so we can reset singular counter"
-      let hnew := clamp (Num.abs hnew) P.hmin P.hmax * P.posneg
+      -- `hnew.abs().max(hmin).min(hmax) * posneg` (the upper limit wins when min_step exceeds it)
+      let hnew := Num.fmin (Num.fmax (Num.abs hnew) P.hmin) P.hmax * P.posneg
       let hnew := if s.reject then P.posneg * Num.fmin (Num.abs hnew) (Num.abs h) else hnew
       let base : State α :=
         { s with x := x, first := false, reject := false, singular := 0, theta := theta, thqold := thqold, dynold := dynold,
